@@ -4,9 +4,13 @@ C04 — a third-party caveat is satisfied only by its own discharge.
 Generic theorems (every `Crypto B`; the ones marked [lawful] for every `LawfulCrypto B`) about
 `verifyWith`/`verify`, `firstDischarge`, `dischargeTicket`, `newCaveat3P` of Token/Macaroon.lean.
 Symbolic corollaries (a discharge signed with another secret or tampered with is rejected when
-`rn` is secret) are in Props/Symbolic.lean.  Tie: families `discharge`, `legit`.
+`rn` is secret; a ticket under the wrong key or altered is refused: `ticket_wrong_key`,
+`ticket_altered`; two sealings differ unless the AEAD nonces coincide: `seal_twice_differs_sym`) are
+in Props/Symbolic.lean; the byte-level forms (`ticket_roundtrip`, `box_nonce_injective`,
+`verifyBytes_ignores_malformed`) in Props/Concrete.lean.  Tie: families `discharge`, `legit`.
 -/
 import Macaroon.Lemmas.Token
+import Macaroon.Crypto.Symbolic
 
 namespace Macaroon.Props.C04
 open Macaroon Macaroon.Crypto Macaroon.Lemmas
@@ -129,6 +133,77 @@ theorem extra_discharges_irrelevant (k : B) (m : Mac B) (dms extra : List (Mac B
   · dsimp only [verify, verifyWith]
     rw [walk_congr _ _ (byTicket (extra ++ dms)) (byTicket dms) _ _ _ (fun l v t hm => (hb l v t hm).2)]
 
+/-- one iteration of the `dmLoop` -/
+theorem firstDischarge_cons (ids : List B) (ta : Bool) (tr : Bytes → List B) (key : B) (x : Mac B) (xs : List (Mac B)) :
+    firstDischarge ids ta tr key (x :: xs) =
+      match trustOf (tr x.loc) x.nonce.kid key with
+      | none => firstDischarge ids ta tr key xs
+      | some t =>
+        match verifyFlat key x ids (ta && t) with
+        | .ok cs => some cs
+        | .error _ => firstDischarge ids ta tr key xs := by
+  rw [firstDischarge]
+  cases trustOf (tr x.loc) x.nonce.kid key with
+  | none => rfl
+  | some t => simp only; cases verifyFlat key x ids (ta && t) <;> rfl
+
+/-- candidates presented after an accepted one are never looked at; after a list that yields nothing
+the remaining ones decide -/
+theorem firstDischarge_append (ids : List B) (ta : Bool) (tr : Bytes → List B) (key : B) :
+    ∀ (xs ys : List (Mac B)), firstDischarge ids ta tr key (xs ++ ys) =
+      (firstDischarge ids ta tr key xs).orElse (fun _ => firstDischarge ids ta tr key ys)
+  | [], ys => by simp [firstDischarge]
+  | x :: xs, ys => by
+    rw [List.cons_append, firstDischarge_cons, firstDischarge_cons]
+    cases trustOf (tr x.loc) x.nonce.kid key with
+    | none => simp only; exact firstDischarge_append ids ta tr key xs ys
+    | some t =>
+      simp only
+      cases verifyFlat key x ids (ta && t) with
+      | ok cs => simp
+      | error e => simp only; exact firstDischarge_append ids ta tr key xs ys
+
+theorem firstDischarge_none_mem (ids : List B) (ta : Bool) (tr : Bytes → List B) (key : B) (d : Mac B) :
+    ∀ (ds : List (Mac B)), d ∈ ds → firstDischarge ids ta tr key ds = none → firstDischarge ids ta tr key [d] = none
+  | [], h, _ => by cases h
+  | x :: xs, h, hn => by
+    rw [firstDischarge_cons] at hn
+    rcases List.mem_cons.mp h with rfl | h'
+    · rw [firstDischarge_cons]
+      cases ht : trustOf (tr d.loc) d.nonce.kid key with
+      | none => simp [firstDischarge]
+      | some t =>
+        simp only [ht] at hn ⊢
+        cases hv : verifyFlat key d ids (ta && t) with
+        | ok cs => simp [hv] at hn
+        | error e => simp [firstDischarge]
+    · have : firstDischarge ids ta tr key xs = none := by
+        cases ht : trustOf (tr x.loc) x.nonce.kid key with
+        | none => simpa [ht] using hn
+        | some t =>
+          simp only [ht] at hn
+          cases hv : verifyFlat key x ids (ta && t) with
+          | ok cs => simp [hv] at hn
+          | error e => simpa [hv] using hn
+      exact firstDischarge_none_mem ids ta tr key d xs h' this
+
+/-- `duplicate_discharge_irrelevant`: presenting a candidate a second time (after the others) changes
+nothing — if some candidate was accepted it still is the first accepted one, and if none was, the
+duplicate is not either -/
+theorem duplicate_discharge_irrelevant (ids : List B) (ta : Bool) (tr : Bytes → List B) (key : B) (d : Mac B)
+    (ds : List (Mac B)) (h : d ∈ ds) :
+    firstDischarge ids ta tr key (ds ++ [d]) = firstDischarge ids ta tr key ds := by
+  rw [firstDischarge_append]
+  cases hf : firstDischarge ids ta tr key ds with
+  | some r => rfl
+  | none => simpa using firstDischarge_none_mem ids ta tr key d ds h hf
+
+/-- candidates that are not accepted, presented in front, do not matter either -/
+theorem failing_candidates_in_front_irrelevant (ids : List B) (ta : Bool) (tr : Bytes → List B) (key : B)
+    (bad ds : List (Mac B)) (h : firstDischarge ids ta tr key bad = none) :
+    firstDischarge ids ta tr key (bad ++ ds) = firstDischarge ids ta tr key ds := by
+  rw [firstDischarge_append, h]; rfl
+
 /-- [lawful] the third party recovers from a ticket exactly the conditions its author attached, and
 the discharge it prepares is rooted at the secret the caveat embeds, keyed by the ticket — for a
 third-party key that is an AEAD key, an AEAD nonce, and a ticket body within the codec's domain
@@ -148,6 +223,53 @@ theorem bad_ticket_rejected (ka : B) (loc : Bytes) (ticket rnd : B) (p : Bool) :
     (openTicket ka ticket = .badPlaintext → dischargeTicket ka loc ticket rnd p = .error .badPlaintext) := by
   constructor <;> (intro h; unfold dischargeTicket; rw [h])
 
+/-! ### non-vacuity (symbolic instance) -/
+
+section examples
+open Symbolic Symbolic.Term
+
+/-- issuer key `atom 0`; third-party key `atom 5`; discharge key `atom 11` -/
+def e0 : Mac Term := mint (atom 0) (lit [1]) [] (atom 1) false
+def etk : Term := sealTicket (atom 5) (atom 12) (atom 11) [.isUser 3]
+def e1 : Mac Term := (add e0 [.plain (.isUser 7), .new3p [9] etk (atom 11) (atom 13)]).1
+/-- the genuine discharge with an extra caveat, finalised -/
+def ed : Mac Term := encodeState (add (mint (atom 11) etk [9] (atom 14) true) [.plain (.confineUser 5)]).1
+/-- the same ticket as key-id under another secret; another ticket; a discharge that itself demands a discharge -/
+def edWrongKey : Mac Term := encodeState (mint (atom 77) etk [9] (atom 15) true)
+def edOther : Mac Term := encodeState (mint (atom 11) (lit [4]) [9] (atom 16) true)
+def edNested : Mac Term :=
+  encodeState (add (mint (atom 11) etk [9] (atom 17) true) [.new3p [8] (lit [5]) (atom 18) (atom 19)]).1
+
+example : verify (atom 0) e1 [ed] (fun _ => []) = .ok [.isUser 7, .confineUser 5] := by rfl
+example : verify (atom 0) e1 [edWrongKey] (fun _ => []) = .error .dischargeFailed := by rfl
+example : verify (atom 0) e1 [edNested] (fun _ => []) = .error .dischargeFailed := by rfl
+example := (verify_char (atom 0) e1 [ed] (fun _ => []) _).mp (by rfl)
+example := missing_discharge_rejected (atom 0) e1 [edOther] (fun _ => []) [9]
+  (sealKey (add e0 [.plain (.isUser 7)]).1.tail (atom 13) (atom 11)) etk (by decide) (by decide)
+example : verify (atom 0) e1 [edOther] (fun _ => []) = .error .noDischarge := by rfl
+example := nested_3p_never_discharged (atom 11) edNested [] false [8]
+  (sealKey (mint (atom 11) etk [9] (atom 17) true).tail (atom 19) (atom 18)) (lit [5]) (by decide)
+example := discharge_caveats_imposed (atom 0) e1 [ed] (fun _ => []) _ (by rfl)
+example := extra_discharges_irrelevant (atom 0) e1 [ed] [edOther] (fun _ => []) (by
+  intro loc vk ticket hm d hd
+  simp only [List.mem_singleton] at hd; subst hd
+  have : ticket = etk := by
+    have hc : e1.cavs = [.isUser 7, .tp [9] (sealKey (add e0 [.plain (.isUser 7)]).1.tail (atom 13) (atom 11)) etk] := by rfl
+    rw [hc] at hm
+    simp only [List.mem_cons, List.not_mem_nil, or_false, reduceCtorEq, false_or, Cav.tp.injEq] at hm
+    exact hm.2.2
+  subst this; decide)
+example : verify (atom 0) e1 ([ed] ++ [edOther]) (fun _ => []) = .ok [.isUser 7, .confineUser 5] := by rfl
+example := (first_accepted_discharge_decides [] true (fun _ => []) (atom 11) [edWrongKey, ed] [.confineUser 5]).mp (by rfl)
+example := duplicate_discharge_irrelevant [] true (fun _ => []) (atom 11) ed [edWrongKey, ed] (by simp)
+example : firstDischarge [] true (fun _ => []) (atom 11) ([edWrongKey, ed] ++ [ed]) = some [.confineUser 5] := by rfl
+example := failing_candidates_in_front_irrelevant [] true (fun _ => []) (atom 11) [edWrongKey, edNested] [ed] (by rfl)
+example := ticket_roundtrip (atom 5) [9] [Cav.isUser 3] (atom 11) (atom 12) (atom 13) (atom 14) true trivial trivial trivial
+example : dischargeTicket (atom 6) [9] etk (atom 14) true = .error .cannotOpen :=
+  (bad_ticket_rejected (atom 6) [9] etk (atom 14) true).1 (by rfl)
+
+end examples
+
 end Macaroon.Props.C04
 
 #print axioms Macaroon.Props.C04.verify_char
@@ -157,5 +279,10 @@ end Macaroon.Props.C04
 #print axioms Macaroon.Props.C04.discharge_caveats_imposed
 #print axioms Macaroon.Props.C04.candidates_carry_the_ticket
 #print axioms Macaroon.Props.C04.extra_discharges_irrelevant
+#print axioms Macaroon.Props.C04.firstDischarge_cons
+#print axioms Macaroon.Props.C04.firstDischarge_append
+#print axioms Macaroon.Props.C04.firstDischarge_none_mem
+#print axioms Macaroon.Props.C04.duplicate_discharge_irrelevant
+#print axioms Macaroon.Props.C04.failing_candidates_in_front_irrelevant
 #print axioms Macaroon.Props.C04.ticket_roundtrip
 #print axioms Macaroon.Props.C04.bad_ticket_rejected
